@@ -426,7 +426,7 @@ theorem exec_succ (fuel : Nat) (P : Prog) (s : Storage) (id : NodeId) :
 theorem execBody_flat {P : Prog} (hflat : Flat P) (c : NodeId → Res Nat) (n : Nat) (s0 : Storage) (id : NodeId) (v : Nat)
     (hinv0 : Inv1 P s0) (hv : evalPS c P s0.srcs s0.maps (fnOf P id.fn).body id.arg = .ok v) :
     ∃ s' b r, execBody n P s0 id = (s', .ok b) ∧ Inv1 P s' ∧ alookup s'.derived id = some r ∧ r.val = v ∧
-      s'.epoch = s0.epoch ∧ s'.srcs = s0.srcs ∧ s'.maps = s0.maps ∧ s'.poisoned = s0.poisoned := by
+      s'.epoch = s0.epoch ∧ s'.srcs = s0.srcs ∧ s'.maps = s0.maps ∧ s'.poisoned = s0.poisoned ∧ r.tv = s'.epoch := by
   have hst0 := hinv0.stack
   unfold execBody
   cases hl : alookup s0.derived id with
@@ -459,7 +459,7 @@ theorem execBody_flat {P : Prog} (hflat : Flat P) (c : NodeId → Res Nat) (n : 
       · simp only [regDep, hst0]; exact hl
       · have := hok.sound (hok.fresh_now htv) s0.srcs s0.maps c (fun _ _ => rfl)
         rw [hv] at this; cases this; rfl
-      · simp [regDep, hst0]
+      · simp [regDep, hst0, htv]
     · simp only [if_neg htv]
       -- `verify_derived_node`
       have hsetTv : setTv s0 id s0.epoch = { s0 with derived := ainsert s0.derived id (Rev.mk rev.val rev.tu s0.epoch rev.deps) } := by
@@ -540,7 +540,7 @@ theorem execBody_flat {P : Prog} (hflat : Flat P) (c : NodeId → Res Nat) (n : 
 theorem exec_flat {P : Prog} (hflat : Flat P) (c : NodeId → Res Nat) (n : Nat) (s : Storage) (id : NodeId) (v : Nat)
     (hinv : Inv1 P s) (hv : evalPS c P s.srcs s.maps (fnOf P id.fn).body id.arg = .ok v) :
     ∃ s' b r, exec (n + 1) P s id = (s', .ok b) ∧ Inv1 P s' ∧ alookup s'.derived id = some r ∧ r.val = v ∧
-      s'.epoch = s.epoch ∧ s'.srcs = s.srcs ∧ s'.maps = s.maps ∧ s'.poisoned = s.poisoned := by
+      s'.epoch = s.epoch ∧ s'.srcs = s.srcs ∧ s'.maps = s.maps ∧ s'.poisoned = s.poisoned ∧ r.tv = s'.epoch := by
   rw [exec_succ]
   have hp : pushTop s id = { s with topCalls := s.topCalls ++ [id], pushes := s.pushes ++ [id] } := by
     simp [pushTop, hinv.stack]
@@ -674,6 +674,16 @@ theorem Inv1.setSource {P : Prog} {s : Storage} (h : Inv1 P s) (k0 : Key) (v : N
         · exact hc
       exact h.congr h.stack rfl rfl hm rfl
 
+theorem setSource_maps (s : Storage) (k : Key) (v : Nat) : (setSource s k v).maps = s.maps := by
+  unfold setSource; split
+  · split <;> rfl
+  · rfl
+
+theorem Inv1.setSource' {P : Prog} {s : Storage} (h : Inv1 P s) (k0 : Key) (v : Nat) :
+    Inv1 P (IsoVerif.Pico.setSource s k0 v) := by
+  have := h.setSource k0 v s.maps (fun _ _ => rfl) (Or.inr (Or.inr rfl))
+  exact this.congr this.stack rfl rfl (setSource_maps s k0 v) rfl
+
 theorem Inv1.removeSource {P : Prog} {s : Storage} (h : Inv1 P s) (k0 : Key) : Inv1 P (removeSource s k0) := by
   unfold IsoVerif.Pico.removeSource
   cases hl : alookup s.srcs k0 with
@@ -690,5 +700,219 @@ theorem Inv1.removeSource {P : Prog} {s : Storage} (h : Inv1 P s) (k0 : Key) : I
       intro k hne
       have h1 : alookup (aerase s.srcs k0) k = alookup s.srcs k := alookup_aerase_ne _ _ _ (Ne.symm hne)
       exact ⟨h1, keyObs_of_lookup_maps h1 (fun _ _ => rfl)⟩
+
+
+/-! ## every operation -/
+
+theorem getD_setNth_ne {α : Type} (d x : α) : ∀ (l : List α) (m i : Nat), i ≠ m → (setNth l m x).getD i d = l.getD i d := by
+  intro l
+  induction l with
+  | nil => intro m i _; rfl
+  | cons y ys ih =>
+    intro m i hne
+    cases m with
+    | zero =>
+      cases i with
+      | zero => exact absurd rfl hne
+      | succ i => simp [setNth]
+    | succ m =>
+      cases i with
+      | zero => simp [setNth]
+      | succ i => simp [setNth]; exact ih m i (fun e => hne (by rw [e]))
+
+theorem mapLen_setNth_ne (maps : List (List Nat)) (m i : Nat) (x : List Nat) (h : i ≠ m) :
+    mapLen (setNth maps m x) i = mapLen maps i := by
+  unfold mapLen; rw [getD_setNth_ne _ _ _ _ _ h]
+
+theorem Inv1.touchCounter_maps {P : Prog} {s : Storage} (h : Inv1 P s) (m : Nat) (x : List Nat) :
+    Inv1 P { touchCounter s m with maps := setNth (touchCounter s m).maps m x } := by
+  have hmaps : (touchCounter s m).maps = s.maps := by
+    unfold touchCounter IsoVerif.Pico.setSource
+    cases hl : alookup s.srcs (.ctr m) with
+    | none => simp
+    | some nd => simp only; split <;> rfl
+  rw [hmaps]
+  unfold touchCounter
+  cases hl : alookup s.srcs (.ctr m) with
+  | none =>
+    simp only
+    exact h.setSource (.ctr m) 0 _ (fun i hi => mapLen_setNth_ne _ _ _ _ (fun e => hi (by rw [e]))) (Or.inl hl)
+  | some nd =>
+    simp only
+    exact h.setSource (.ctr m) (nd.val + 1) _ (fun i hi => mapLen_setNth_ne _ _ _ _ (fun e => hi (by rw [e])))
+      (Or.inr (Or.inl ⟨nd, hl, by omega⟩))
+
+theorem Inv1.gc {P : Prog} {s : Storage} (h : Inv1 P s) : Inv1 P (gc s).1 := by
+  unfold IsoVerif.Pico.gc
+  simp only
+  split
+  · exact h.congr h.stack rfl rfl rfl rfl
+  · refine ⟨h.stack, h.srcTu, ?_⟩
+    intro n r hn
+    exact (h.nodes n r (alookup_filterKey_some _ _ _ _ hn)).congr rfl rfl rfl
+
+/-- the outcome of a call in a state satisfying the invariant -/
+theorem step_call_flat {P : Prog} (hflat : Flat P) (fuel : Nat) (s : Storage) (f a v : Nat) (hinv : Inv1 P s)
+    (hv : evalSS fuel P s.srcs s.maps [] (nodeOf P f a) = .ok v) :
+    Inv1 P (step fuel P s (.call f a)).1 ∧
+      ((step fuel P s (.call f a)).2 = .dead ∨ (step fuel P s (.call f a)).2 = .val v) := by
+  unfold step
+  by_cases hp : s.poisoned = true
+  · rw [if_pos hp]; exact ⟨hinv, Or.inl rfl⟩
+  · rw [if_neg hp]
+    cases fuel with
+    | zero => simp [evalSS] at hv
+    | succ n =>
+      simp only [evalSS] at hv
+      have hc : ([] : List NodeId).contains (nodeOf P f a) = false := rfl
+      rw [if_neg (by simp)] at hv
+      obtain ⟨s', b, r, he, hinv', hl, hval, hep, hsr, hmp, _, _⟩ := exec_flat hflat _ n s (nodeOf P f a) v hinv hv
+      simp only [callVia, he, hl]
+      refine ⟨?_, Or.inr (by rw [hval])⟩
+      exact hinv'.congr hinv'.stack rfl rfl rfl rfl
+
+theorem Inv1.step {P : Prog} (hflat : Flat P) (fuel : Nat) {s : Storage} (hinv : Inv1 P s) (op : Op)
+    (hclean : ∀ f a, op = .call f a → ∃ v, evalSS fuel P s.srcs s.maps [] (nodeOf P f a) = .ok v) :
+    Inv1 P (step fuel P s op).1 := by
+  cases op with
+  | call f a =>
+    obtain ⟨v, hv⟩ := hclean f a rfl
+    exact (step_call_flat hflat fuel s f a v hinv hv).1
+  | set k v =>
+    unfold IsoVerif.Pico.step; split
+    · exact hinv
+    · exact hinv.setSource' (.src k) v
+  | rem k =>
+    unfold IsoVerif.Pico.step; split
+    · exact hinv
+    · exact hinv.removeSource _
+  | sset i v =>
+    unfold IsoVerif.Pico.step; split
+    · exact hinv
+    · exact hinv.setSource' (.sing i) v
+  | srem i =>
+    unfold IsoVerif.Pico.step; split
+    · exact hinv
+    · exact hinv.removeSource _
+  | tins m k =>
+    unfold IsoVerif.Pico.step; split
+    · exact hinv
+    · exact hinv.touchCounter_maps m _
+  | trem m k =>
+    unfold IsoVerif.Pico.step; split
+    · exact hinv
+    · exact hinv.touchCounter_maps m _
+  | look f a =>
+    unfold IsoVerif.Pico.step; split
+    · exact hinv
+    · simp only; split
+      · split <;> exact hinv
+      · exact hinv
+  | retain f a =>
+    unfold IsoVerif.Pico.step; split
+    · exact hinv
+    · simp only; split
+      · exact hinv.congr hinv.stack rfl rfl rfl rfl
+      · exact hinv
+  | unretain f a =>
+    unfold IsoVerif.Pico.step; split
+    · exact hinv
+    · simp only; split
+      · exact hinv.congr hinv.stack rfl rfl rfl rfl
+      · exact hinv
+  | nevergc f a =>
+    unfold IsoVerif.Pico.step; split
+    · exact hinv
+    · simp only; split
+      · exact hinv.congr hinv.stack rfl rfl rfl rfl
+      · exact hinv
+  | gc =>
+    unfold IsoVerif.Pico.step; split
+    · exact hinv
+    · have := hinv.gc
+      cases hg : IsoVerif.Pico.gc s with
+      | mk s' r =>
+        rw [hg] at this
+        cases r <;> exact this
+
+theorem Inv1.init (P : Prog) (cap nfn : Nat) : Inv1 P (Storage.init cap nfn) :=
+  ⟨rfl, by intro k nd h; simp [Storage.init] at h, by intro n r h; simp [Storage.init] at h⟩
+
+theorem runS_nil (fuel : Nat) (P : Prog) (s : Storage) : runS fuel P s [] = s := rfl
+
+theorem runS_cons (fuel : Nat) (P : Prog) (s : Storage) (op : Op) (ops : List Op) :
+    runS fuel P s (op :: ops) = runS fuel P (step fuel P s op).1 ops := by
+  simp [runS, run]
+
+theorem runS_append (fuel : Nat) (P : Prog) : ∀ (xs : List Op) (s : Storage) (ys : List Op),
+    runS fuel P s (xs ++ ys) = runS fuel P (runS fuel P s xs) ys := by
+  intro xs
+  induction xs with
+  | nil => intro s ys; rfl
+  | cons x xs ih => intro s ys; simp only [List.cons_append, runS_cons]; exact ih _ _
+
+/-- the invariant holds after every prefix of a history whose calls are clean -/
+theorem inv1_runS {P : Prog} (hflat : Flat P) (fuel : Nat) : ∀ (pre : List Op) (s : Storage), Inv1 P s →
+    (∀ p f a rest, pre = p ++ Op.call f a :: rest →
+        ∃ v, evalSS fuel P (runS fuel P s p).srcs (runS fuel P s p).maps [] (nodeOf P f a) = .ok v) →
+    Inv1 P (runS fuel P s pre) := by
+  intro pre
+  induction pre with
+  | nil => intro s h _; exact h
+  | cons op ops ih =>
+    intro s h hc
+    rw [runS_cons]
+    refine ih _ (h.step hflat fuel op ?_) ?_
+    · intro f a hop; subst hop; exact hc [] f a ops rfl
+    · intro p f a rest hp
+      have := hc (op :: p) f a rest (by rw [hp]; rfl)
+      rw [runS_cons] at this; exact this
+
+/-- **C01, stage 1** -/
+theorem c01_stage1 {P : Prog} (hflat : Flat P) (fuel cap : Nat) (h : List Op) (hclean : CleanCalls fuel cap P h)
+    (pre : List Op) (f a : Nat) (rest : List Op) (hh : h = pre ++ Op.call f a :: rest) :
+    (step fuel P (after fuel cap P pre) (.call f a)).2 = .dead ∨
+      (step fuel P (after fuel cap P pre) (.call f a)).2 = outOfRes (evalScratch fuel P (after fuel cap P pre) (nodeOf P f a)) := by
+  have hinv : Inv1 P (after fuel cap P pre) := by
+    unfold after
+    refine inv1_runS hflat fuel pre _ (Inv1.init P cap P.length) ?_
+    intro p f' a' rest' hp
+    exact hclean p f' a' (rest' ++ Op.call f a :: rest) (by rw [hh, hp]; simp)
+  obtain ⟨v, hv⟩ := hclean pre f a rest hh
+  have hs := evalSS_ok_evalS P _ _ fuel [] _ v hv
+  rcases (step_call_flat hflat fuel _ f a v hinv hv).2 with hd | hval
+  · exact Or.inl hd
+  · right; rw [hval]; unfold evalScratch; rw [hs]; rfl
+
+
+/-! ## a decidable form of `CleanCalls` (for concrete histories) -/
+
+def Res.isOk {α : Type} : Res α → Bool
+  | .ok _ => true
+  | .panic _ => false
+
+def cleanAt (fuel cap : Nat) (P : Prog) (h : List Op) (i : Nat) : Bool :=
+  match h.getD i .gc with
+  | .call f a => (evalSS fuel P (after fuel cap P (h.take i)).srcs (after fuel cap P (h.take i)).maps [] (nodeOf P f a)).isOk
+  | _ => true
+
+def cleanCallsB (fuel cap : Nat) (P : Prog) (h : List Op) : Bool := (List.range h.length).all (cleanAt fuel cap P h)
+
+theorem cleanCalls_of_B (fuel cap : Nat) (P : Prog) (h : List Op) (hb : cleanCallsB fuel cap P h = true) :
+    CleanCalls fuel cap P h := by
+  intro pre f a rest hh
+  have hlen : pre.length < h.length := by rw [hh]; simp
+  have hat : cleanAt fuel cap P h pre.length = true := by
+    unfold cleanCallsB at hb
+    rw [List.all_eq_true] at hb
+    exact hb _ (List.mem_range.2 hlen)
+  have htake : h.take pre.length = pre := by rw [hh]; simp
+  have hget : h.getD pre.length .gc = .call f a := by rw [hh]; simp
+  unfold cleanAt at hat
+  rw [hget, htake] at hat
+  simp only at hat
+  cases he : evalSS fuel P (after fuel cap P pre).srcs (after fuel cap P pre).maps [] (nodeOf P f a) with
+  | ok v => exact ⟨v, rfl⟩
+  | panic p => rw [he] at hat; simp [Res.isOk] at hat
 
 end IsoVerif.Pico
